@@ -107,8 +107,13 @@ class Prop:
     def k(self):
         return self.k_quick if self.tier == 'quick' else self.k_thorough
 
+    def get_classes(self):
+        import os
+        env = os.environ.get('VERIF_CLASSES')  # experiments only (class triage); never set by registered commands
+        return env.split(',') if env else self.classes
+
     def gen_spec(self, rng):
-        return gen.gen_program(rng, self.classes, faults=self.faults and rng.random() < 0.75, n_max=self.n_max)
+        return gen.gen_program(rng, self.get_classes(), faults=self.faults and rng.random() < 0.75, n_max=self.n_max)
 
     def gen(self, rng):
         spec = self.gen_spec(rng)
@@ -331,7 +336,7 @@ class C05(Prop):
             'outcome is a failure')
 
     def gen_spec(self, rng):
-        return gen.gen_program(rng, self.classes, faults=True, n_fault_nodes=rng.choice([1, 1, 2, 2, 3, 4]),
+        return gen.gen_program(rng, self.get_classes(), faults=True, n_fault_nodes=rng.choice([1, 1, 2, 2, 3, 4]),
                                n_max=self.n_max)
 
     def nontrivial(self, case, rec, refs):
